@@ -2,6 +2,8 @@ package main
 
 import (
 	"fmt"
+	"os"
+	"sort"
 	"go/token"
 	"go/types"
 	"strings"
@@ -199,6 +201,9 @@ func (f *frame) callFunction(fn *ssa.Function, args []Val, bindings []Val, pos t
 	v := f.v
 	key := v.eng.funcKey(fn)
 	sig := fn.Signature
+	if f.isRoot {
+		f.siteAsserts(key, pos)
+	}
 	// math.Max / math.Ceil over the reals are built in (structured terms, see intForm)
 	switch key {
 	case "math.Max":
@@ -875,4 +880,101 @@ func (te *TEnv) tryObjRef(e Expr) (ref Term, t types.Type, ok bool) {
 	}()
 	ref, t = te.objRef(e)
 	return ref, t, true
+}
+
+// siteAsserts discharges `assert @Callee#n` clauses of the root contract at this call site.
+func (f *frame) siteAsserts(calleeKey string, pos token.Pos) {
+	v := f.v
+	short := calleeKey
+	if i := strings.LastIndex(short, "."); i >= 0 {
+		short = short[i+1:]
+	}
+	// call sites are numbered in source order
+	if f.siteOrd == nil {
+		f.siteOrd = map[token.Pos]int{}
+		byName := map[string][]token.Pos{}
+		for _, b := range f.fn.Blocks {
+			for _, in := range b.Instrs {
+				if c, ok := in.(ssa.CallInstruction); ok {
+					if callee := c.Common().StaticCallee(); callee != nil {
+						k := v.eng.funcKey(callee)
+						if i := strings.LastIndex(k, "."); i >= 0 {
+							k = k[i+1:]
+						}
+						byName[k] = append(byName[k], c.Pos())
+					}
+				}
+			}
+		}
+		for _, ps := range byName {
+			sort.Slice(ps, func(i, j int) bool { return ps[i] < ps[j] })
+			for i, p := range ps {
+				f.siteOrd[p] = i + 1
+			}
+		}
+	}
+	site := fmt.Sprintf("%s#%d", short, f.siteOrd[pos])
+	for _, cl := range v.fc.Of("assert") {
+		if cl.Site != site || !cl.HasTag(v.prop) {
+			continue
+		}
+		env := f.siteEnv()
+		goal := v.trClause(env, cl)
+		tag := ""
+		if len(cl.Tags) > 0 {
+			tag = "[" + strings.Join(cl.Tags, ",") + "]"
+		}
+		v.assertSites[cl.Ord] = true
+		v.oblige("post", fmt.Sprintf("%s/assert#%d@%s%s", v.fc.Key, cl.Ord, cl.Site, tag), cl.Tags, f.reach, goal, fmt.Sprintf("%s:%d (at %s)", strings.TrimPrefix(cl.File, "/repo/"), cl.Line, v.pos(pos)), cl.Src)
+	}
+}
+
+// siteEnv: contract names plus the enclosing function's locals as they are at this point.
+func (f *frame) siteEnv() *TEnv {
+	v := f.v
+	env := &TEnv{v: v, st: f.cur, vars: map[string]TV{}, bound: map[string]TV{}, pkg: v.fc.Pkg, nowOld: v.now0}
+	for k, tv := range f.oldVars {
+		env.vars[k] = tv
+	}
+	env.old = &TEnv{v: v, st: v.entry, vars: env.vars, bound: map[string]TV{}, pkg: v.fc.Pkg, nowOld: v.now0}
+	cur := f.curBlock
+	curIdx := f.curIdx
+	env.resolve = func(name string) (TV, bool) {
+		if os.Getenv("GOVC_DEBUG") != "" {
+			fmt.Fprintf(os.Stderr, "resolve %s at block %d idx %d\n", name, cur.Index, curIdx)
+		}
+		for d := cur; d != nil; d = d.Idom() {
+			refs := f.debug[d]
+			for i := len(refs) - 1; i >= 0; i-- {
+				r := refs[i]
+				if r.name != name {
+					continue
+				}
+				if d == cur && r.idx >= curIdx {
+					continue
+				}
+				val, ok := f.env[r.val]
+				if !ok {
+					if c, isC := r.val.(*ssa.Const); isC {
+						val = f.constVal(c)
+					} else {
+						continue
+					}
+				}
+				if r.isAddr {
+					t := deref(r.val.Type())
+					switch a := val.(type) {
+					case Term:
+						return TV{v.loadCell(f.cur, a, t, env.quiet()), t}, true
+					case AddrV:
+						return TV{v.loadField(f.cur, a.Obj, a.T, a.Field, env.quiet()), t}, true
+					}
+					continue
+				}
+				return TV{val, r.val.Type()}, true
+			}
+		}
+		return TV{}, false
+	}
+	return env
 }
